@@ -1582,18 +1582,21 @@ class Interp:
             inputs = []
             if bb in heads:
                 hs = head_state.setdefault(bb, {})
-                for k, ws in groups.items():
+                for k in groups:
                     H = hs.get(k)
-                    for N in ws:
-                        if H is None:
-                            H = N
-                            continue
-                        if self.absorbs(H, N):
-                            continue
-                        n = head_count.get((bb, k), 0)
-                        head_count[(bb, k)] = n + 1
-                        self.head_points.add((frame.fid, bb, 0))
-                        H, _ = self.join(H, N, (frame.fid, bb, 0), widen=(n >= 2), relational=True)
+                    for p_, bw in sorted(edge_groups[k].items()):
+                        is_back = order.get(p_, -1) >= order.get(bb, 0)
+                        for N in bw:
+                            if H is None:
+                                H = N
+                                continue
+                            if self.absorbs(H, N):
+                                continue
+                            n = head_count.get((bb, k), 0)
+                            if is_back:
+                                head_count[(bb, k)] = n + 1
+                            self.head_points.add((frame.fid, bb, 0))
+                            H, _ = self.join(H, N, (frame.fid, bb, 0), widen=(is_back and n >= 2), relational=True)
                     hs[k] = H
                 if len(hs) > self.max_worlds:
                     raise AnalysisError(f"too many partitions at loop head bb{bb} of {body.key}")
@@ -1729,7 +1732,10 @@ class Interp:
             return c
         cands = set(E.store.cons)
         raw = set(E.store.cons)
-        if not widen:
+        fresh = set(SE)            # locations joined for the first time at this point
+        only_fresh = widen and bool(fresh)
+        base_cands = set(cands)
+        if not widen or fresh:
             for c in N.store.cons:
                 if not any(c.coef(a) for a in SN if a not in SE):
                     cands.add(c)
@@ -1740,6 +1746,9 @@ class Interp:
             cands |= self.affine_relations(SE, SN, E.store, N.store)
             if relational:
                 cands |= self.template_candidates(E, N, SE, SN, point)
+            if only_fresh:
+                # widening: constraints that do not involve a first-time location come from E only
+                cands = base_cands | set(c for c in cands if any(c.coef(a) for a in fresh))
             for a in SN:
                 ee = SE.get(a, Lin.atom(a))
                 ne = SN[a]
@@ -1901,6 +1910,8 @@ class Interp:
         from lin import _relevant
         for j, ne in SN.items():
             ee = SE.get(j, Lin.atom(j))
+            if not (ee.is_const() or ne.is_const()):
+                continue      # both sides symbolic: the substitution-derived candidates cover the relations
             relN, atN = _relevant(N.store.cons, ne.atoms())
             relE, atE = _relevant(E.store.cons, ee.atoms())
             for x in stable:
